@@ -66,6 +66,15 @@ class Ctx:
         self.has_out = set()
         self.internal: Optional[list] = None  # filled by harness.internal when enabled
         self.last_reply: Dict[tuple, Any] = {}
+        self.stubs: Dict[str, Any] = {}  # fake-stream remote stubs by sid
+        self.faults: List[dict] = []  # planned faults (harness/faults)
+
+    def fault_point(self, sid, where):
+        """Hook for fault injection at named points of the protocol (no-op unless faults are planned)."""
+        for f in self.faults:
+            if f.get("sid") == sid and f.get("at") == where and not f.get("done"):
+                f["done"] = True
+                f["fire"](self, f)
 
     def record(self, ev: dict):
         self.trace.append(ev)
@@ -247,7 +256,19 @@ def build_world(ctx: Ctx, loop, world_kw=None, connect_order=None):
     ents: Dict[str, list] = {}
 
     def start(sid):
-        world.sim_config[sid] = {"vscripted": True}
+        transport = sims[sid].get("transport") or scn.get("transport") or "async"
+        if transport == "remote":
+            from . import remote  # noqa: F401  registers the starter
+
+            world.sim_config[sid] = {"vremote": True}
+        elif transport == "local":
+            from . import local  # noqa: F401
+
+            world.sim_config[sid] = {"python": "harness.local:LocalGenSim" if sims[sid].get("gen") else "harness.local:LocalSim"}
+        else:
+            world.sim_config[sid] = {"vscripted": True}
+        if sims[sid].get("api_version"):
+            world.sim_config[sid]["api_version"] = sims[sid]["api_version"]
         fac = world.start(sid, sim_id=sid)
         ents[sid] = fac.M.create(sims[sid].get("nent", 1))
 
